@@ -129,6 +129,11 @@ func h1aCallMayWrite(cc *ssa.CallCommon, root ssa.Value) bool {
 		vals = append(vals, cc.Value)
 	}
 	for _, a := range vals {
+		// a value that is not a reference (an integer, a string, a struct copy)
+		// gives the callee no way to store into the object it was loaded from
+		if !sh1IsRef(a.Type()) {
+			continue
+		}
 		if h1aRoot(core.StripConv(a)) == root {
 			return true
 		}
@@ -202,7 +207,7 @@ func h1aResolve(v ssa.Value) ssa.Value {
 // h1aExtractOf: v (resolved) is result #i of a call matching one of names;
 // returns the call.
 func h1aExtractOf(v ssa.Value, i int, names ...string) *ssa.Call {
-	v = h1aResolve(v)
+	v = h1aRes(v)
 	if ex, ok := v.(*ssa.Extract); ok && ex.Index == i {
 		if call, ok := ex.Tuple.(*ssa.Call); ok && core.CallIs(&call.Call, names...) {
 			return call
@@ -242,6 +247,7 @@ type h1aFact struct {
 type h1aFacts struct {
 	memo map[*ssa.BasicBlock][]h1aFact
 	busy map[*ssa.BasicBlock]bool
+	syn  map[ssa.Value]*ssa.BinOp // synthesised `v == nil` conditions (facts implied by a helper's returns)
 }
 
 func h1aNewFacts() *h1aFacts {
@@ -266,6 +272,13 @@ func (fx *h1aFacts) At(b *ssa.BasicBlock) []h1aFact {
 	var out []h1aFact
 	switch {
 	case len(b.Preds) == 0:
+		// the entry block of a private helper (one static call site): whatever
+		// holds at the call site holds inside the helper
+		if fn := b.Parent(); fn != nil && len(fn.Blocks) > 0 && b == fn.Blocks[0] {
+			if site := h1rPrivateSite(fn); site != nil && site.Block() != nil {
+				out = append(out, fx.At(site.Block())...)
+			}
+		}
 	case len(b.Preds) == 1:
 		out = fx.Edge(b.Preds[0], b)
 	default:
@@ -333,6 +346,46 @@ func (fx *h1aFacts) expand(cond ssa.Value, pol bool, depth int) []h1aFact {
 		if x.Op == token.NOT {
 			return fx.expand(x.X, !pol, depth+1)
 		}
+	case *ssa.Call:
+		// a boolean helper of the package: what its returns with this verdict have in common
+		if h := h1rFactHelper(x); h != nil && depth < 3 && x.Call.Signature().Results().Len() == 1 {
+			out := []h1aFact{{cond, pol}}
+			return append(out, fx.viaReturns(h, 0, func(rv ssa.Value, at []h1aFact) (bool, []h1aFact) {
+				if bv, isK := h1aConstBool(rv); isK {
+					return bv == pol, nil
+				}
+				return true, fx.expand(rv, pol, depth+1)
+			})...)
+		}
+	case *ssa.BinOp:
+		// `err ==/!= nil` where err is the error result of a helper of the package
+		if (x.Op == token.EQL || x.Op == token.NEQ) && depth < 3 {
+			var subj ssa.Value
+			switch {
+			case h1aIsNil(x.Y):
+				subj = x.X
+			case h1aIsNil(x.X):
+				subj = x.Y
+			}
+			if subj != nil && h1rIsErrorType(subj.Type()) {
+				if call, idx := h1rCallResult(h1aResolve(subj)); call != nil {
+					if h := h1rFactHelper(call); h != nil {
+						isNil := (x.Op == token.EQL) == pol
+						out := []h1aFact{{cond, pol}}
+						return append(out, fx.viaReturns(h, idx, func(rv ssa.Value, at []h1aFact) (bool, []h1aFact) {
+							rv = h1aResolve(rv)
+							if h1aIsNil(rv) {
+								return isNil, nil
+							}
+							if h1aNonNilErr(rv, at, nil) {
+								return !isNil, nil
+							}
+							return true, fx.expand(fx.nilCmp(rv), isNil, depth+1)
+						})...)
+					}
+				}
+			}
+		}
 	case *ssa.Phi:
 		cand := -1
 		n := 0
@@ -352,6 +405,85 @@ func (fx *h1aFacts) expand(cond ssa.Value, pol bool, depth int) []h1aFact {
 		}
 	}
 	return []h1aFact{{cond, pol}}
+}
+
+// nilCmp returns the (synthesised, cached) condition `v == nil`.
+func (fx *h1aFacts) nilCmp(v ssa.Value) *ssa.BinOp {
+	if fx.syn == nil {
+		fx.syn = map[ssa.Value]*ssa.BinOp{}
+	}
+	if b := fx.syn[v]; b != nil {
+		return b
+	}
+	b := &ssa.BinOp{Op: token.EQL, X: v, Y: ssa.NewConst(nil, v.Type())}
+	fx.syn[v] = b
+	return b
+}
+
+// viaReturns returns the facts common to all returns of h whose result #idx is
+// compatible with the observed outcome (poss decides and may add facts about
+// the returned value): the facts a caller may rely on after seeing that outcome.
+func (fx *h1aFacts) viaReturns(h *ssa.Function, idx int, poss func(rv ssa.Value, at []h1aFact) (bool, []h1aFact)) []h1aFact {
+	var common []h1aFact
+	first := true
+	for _, r := range core.Returns(h) {
+		rv := core.RetVals(r)
+		if idx >= len(rv) {
+			return nil
+		}
+		at := fx.At(r.Block())
+		ok, more := poss(rv[idx], at)
+		if !ok {
+			continue
+		}
+		fs := append(append([]h1aFact{}, at...), more...)
+		if first {
+			common, first = fs, false
+			continue
+		}
+		var keep []h1aFact
+		for _, f := range common {
+			for _, g := range fs {
+				if f == g {
+					keep = append(keep, f)
+					break
+				}
+			}
+		}
+		common = keep
+	}
+	return common
+}
+
+// h1rCallResult: v is result #idx of a call (the call itself for one result).
+func h1rCallResult(v ssa.Value) (*ssa.Call, int) {
+	switch x := v.(type) {
+	case *ssa.Call:
+		if x.Call.Signature().Results().Len() == 1 {
+			return x, 0
+		}
+	case *ssa.Extract:
+		if call, ok := x.Tuple.(*ssa.Call); ok {
+			return call, x.Index
+		}
+	}
+	return nil, 0
+}
+
+// h1rFactHelper: the callee is an unexported named function of the caller's
+// package with a body (facts about its returns may be imported).
+func h1rFactHelper(call *ssa.Call) *ssa.Function {
+	sc := call.Call.StaticCallee()
+	if sc == nil || sc.Blocks == nil || sc.Parent() != nil || h1rInfoOf(sc) == nil {
+		return nil
+	}
+	if o := sc.Object(); o == nil || o.Exported() {
+		return nil
+	}
+	if call.Parent() == nil || sc == call.Parent() || core.FuncPkgRel(call.Parent()) != core.FuncPkgRel(sc) {
+		return nil
+	}
+	return sc
 }
 
 func h1aNegate(op token.Token) token.Token {
@@ -403,7 +535,7 @@ func (f h1aFact) Cmp() (x ssa.Value, op token.Token, y ssa.Value, ok bool) {
 	if !f.Pol {
 		op = h1aNegate(op)
 	}
-	x, y = h1aResolve(bo.X), h1aResolve(bo.Y)
+	x, y = h1aRes(bo.X), h1aRes(bo.Y)
 	if _, xc := x.(*ssa.Const); xc {
 		if _, yc := y.(*ssa.Const); !yc {
 			x, y = y, x
@@ -419,9 +551,9 @@ func (f h1aFact) String() string {
 		return core.Render(x) + " " + op.String() + " " + core.Render(y)
 	}
 	if f.Pol {
-		return core.Render(h1aResolve(f.Cond))
+		return core.Render(h1aRes(f.Cond))
 	}
-	return "!" + core.Render(h1aResolve(f.Cond))
+	return "!" + core.Render(h1aRes(f.Cond))
 }
 
 func h1aFactStrs(fs []h1aFact) []string {
@@ -472,7 +604,7 @@ func h1aErrIs(fs []h1aFact, call *ssa.Call, idx int, wantNil bool) bool {
 }
 
 func h1aIsResultOf(v ssa.Value, call *ssa.Call, idx int) bool {
-	v = h1aResolve(v)
+	v = h1aRes(v)
 	if ex, ok := v.(*ssa.Extract); ok {
 		return ex.Tuple == ssa.Value(call) && ex.Index == idx
 	}
@@ -486,7 +618,7 @@ func h1aBoolCallFact(fs []h1aFact, pol bool, names ...string) *ssa.Call {
 		if f.Pol != pol {
 			continue
 		}
-		if call, ok := h1aResolve(f.Cond).(*ssa.Call); ok && core.CallIs(&call.Call, names...) {
+		if call, ok := h1aRes(f.Cond).(*ssa.Call); ok && core.CallIs(&call.Call, names...) {
 			return call
 		}
 	}
@@ -495,7 +627,7 @@ func h1aBoolCallFact(fs []h1aFact, pol bool, names ...string) *ssa.Call {
 
 // h1aNonNilErr: v is certainly a non-nil error given the facts.
 func h1aNonNilErr(v ssa.Value, fs []h1aFact, seen map[ssa.Value]bool) bool {
-	v = h1aResolve(v)
+	v = h1aRes(v)
 	if seen == nil {
 		seen = map[ssa.Value]bool{}
 	}
@@ -515,6 +647,13 @@ func h1aNonNilErr(v ssa.Value, fs []h1aFact, seen map[ssa.Value]bool) bool {
 				return true
 			}
 		}
+		if h1aHelperNonNil(x, 0, seen) {
+			return true
+		}
+	case *ssa.Extract:
+		if call, ok := x.Tuple.(*ssa.Call); ok && h1aHelperNonNil(call, x.Index, seen) {
+			return true
+		}
 	case *ssa.UnOp:
 		if g, ok := x.X.(*ssa.Global); ok && x.Op == token.MUL {
 			// package-level error variables (io.EOF, ErrLineTooLong …)
@@ -528,7 +667,36 @@ func h1aNonNilErr(v ssa.Value, fs []h1aFact, seen map[ssa.Value]bool) bool {
 		}
 		return true
 	}
-	return h1aHasCmp(fs, func(y ssa.Value) bool { return h1aResolve(y) == v }, h1aOpIs(token.NEQ), h1aIsNil)
+	return h1aHasCmp(fs, func(y ssa.Value) bool { return h1aRes(y) == v }, h1aOpIs(token.NEQ), h1aIsNil)
+}
+
+// h1aHelperNonNil: result #idx of a call of a helper of the package is an error
+// that is non-nil on every return of the helper (given the facts that hold
+// there, which include those of the call site for a private helper).
+func h1aHelperNonNil(call *ssa.Call, idx int, seen map[ssa.Value]bool) bool {
+	h := h1rFactHelper(call)
+	if h == nil {
+		return false
+	}
+	res := h.Signature.Results()
+	if idx >= res.Len() || !h1rIsErrorType(res.At(idx).Type()) {
+		return false
+	}
+	inf := h1rInfoOf(h)
+	if inf == nil {
+		return false
+	}
+	if inf.fx == nil {
+		inf.fx = h1aNewFacts()
+	}
+	rets := core.Returns(h)
+	for _, r := range rets {
+		rv := core.RetVals(r)
+		if idx >= len(rv) || !h1aNonNilErr(rv[idx], inf.fx.At(r.Block()), seen) {
+			return false
+		}
+	}
+	return len(rets) > 0
 }
 
 // h1aRetErr returns the error result (last result) of a return.
